@@ -225,6 +225,13 @@ func engineTimep(rep *Report) {
 		}
 		checkAdd(rep, ts, tn, ds, dn, false, "overflow-class")
 	}
+	// ---- the extremes of time.Duration (AddStd): exactly MinInt64 / MaxInt64 nanoseconds and their neighbours
+	for i := 0; i < 60; i++ {
+		ts, tn := validTS(r)
+		for _, d := range [][2]int64{{-9223372036, -854775808}, {-9223372036, -854775807}, {-9223372036, -854775806}, {9223372036, 854775807}, {9223372036, 854775806}} {
+			checkAdd(rep, ts, tn, d[0], int32(d[1]), true, "duration-extremes")
+		}
+	}
 	// ---- overflow edge: the seconds sum lands exactly on (or one short of) MaxInt64 / MinInt64 and the nanos carry / borrow
 	for i := 0; i < 400; i++ {
 		k := 2 + r.Int63n(2000)
